@@ -18,6 +18,7 @@ RECURSIVE Norm(_)
 Norm(d) ==
   CASE d[1] = "nil" -> Null
     [] d[1] = "nilptr" -> TNil
+    [] d[1] = "nilbig" -> <<"other", "nilbig">>       \* a typed nil *decimal.Big: nothing is pinned, only totality
     [] d[1] = "bool" -> Bool(d[2])
     [] d[1] = "str" -> Str(d[2])
     [] d[1] \in {"int", "int32"} -> NumI(d[2])
@@ -34,6 +35,8 @@ Norm(d) ==
     [] d[1] = "struct" -> <<"struct", [k \in DOMAIN d[2] |-> Norm(d[2][k])], d[3]>>   \* d[3]: the names of the unexported fields, a sequence
     [] d[1] = "ptrstruct" -> <<"other", "ptrstruct">>
     [] d[1] = "slice" -> Arr([i \in 1..Len(d[2]) |-> Norm(d[2][i])])
+    \* the elements of a typed Go slice stay raw Go values until something converts them: <<"goint", n>>
+    [] d[1] = "ints" -> <<"arr", [i \in 1..Len(d[2]) |-> <<"goint", d[2][i]>>], "[]int">>
     [] d[1] = "strs" -> <<"arr", [i \in 1..Len(d[2]) |-> Str(d[2][i])], "strs">>
     [] d[1] = "time" -> d
     [] d[1] = "func" -> d
